@@ -343,54 +343,10 @@ def run(repo, res, tier):
         ok = name in x and name in p and x[name] == p[name]
         res.check("A3-SIBLINGS", "reader assignment site %s agrees (xml=%s, protobuf=%s)" % (name, x.get(name), p.get(name)), ok, repo.mod(RP), None, "reader site %s xml=%s protobuf=%s" % (name, x.get(name), p.get(name)), "the XML and protobuf readers assign obstacles to lanelets differently", qualname=name)
 
-    # ---------------- A2
-    scn = repo.cls(SC, "Scenario")
-    smod = scn.mod
-    pairs = [("_add_static_obstacle_to_lanelets", "_remove_static_obstacle_from_lanelets"), ("_add_dynamic_obstacle_to_lanelets", "_remove_dynamic_obstacle_from_lanelets")]
-    for an, rn in pairs:
-        fa = repo.method(SC, "Scenario", an)
-        fr = repo.method(SC, "Scenario", rn)
+    # ---------------- A1 (Scenario side) and A2: decided by abstract evaluation on a small world (c07ev) — registries
+    # and recorded sets are compared after the operation, whatever the code of the operation looks like
+    from . import c07ev
 
-        def iter_sources(fn):
-            return sorted({norm(n.iter) for n in walk_no_nested(fn) if isinstance(n, ast.For)})
-
-        ia, ir = iter_sources(fa), iter_sources(fr)
-        res.check("A2-INVERSE", "%s / %s iterate %s" % (an, rn, ia), ia == ir, smod, fr, "%s iterates %s, %s iterates %s" % (an, ia, rn, ir), "removal walks other lanelet sets than registration filled: entries are left behind", qualname="Scenario." + rn)
-        # the helpers skip their work under the same conditions: removal must not skip what registration did
-        def skip_tests(fn):
-            out = []
-            for st in fn.body:
-                if isinstance(st, ast.If) and st.body and all(isinstance(x, ast.Return) for x in st.body) and not st.orelse:
-                    t = st.test
-                    parts = t.values if isinstance(t, ast.BoolOp) and isinstance(t.op, ast.Or) else [t]
-                    out += [norm(x) for x in parts]
-            return sorted(out)
-
-        sa_, sr_ = skip_tests(fa), skip_tests(fr)
-        extra = [t for t in sr_ if t not in sa_ and not t.endswith("is None")]
-        res.check("A2-INVERSE", "%s skips no case that %s handles (%s)" % (rn, an, sr_), not extra, smod, fr, "%s returns early if %s; %s only if %s" % (rn, sr_, an, sa_), "obstacles that were registered on lanelets are skipped on removal: their registry entries stay behind", qualname="Scenario." + rn)
-        # totality of the removing side
-        for n in walk_no_nested(fr):
-            if isinstance(n, ast.Call) and isinstance(n.func, ast.Attribute):
-                if n.func.attr == "remove" and "obstacle" in norm(n.args[0] if n.args else n):
-                    res.bad("A2-TOTAL", "%s: %s" % (rn, norm(n)[:90]), Finding("A2-TOTAL", smod, n, "%s: %s" % (rn, norm(n)[:110]), "set.remove raises KeyError when the obstacle was not registered on that lanelet (e.g. assigned by centre only, or added before the lanelet): remove_obstacle fails", qualname="Scenario." + rn))
-                elif n.func.attr == "discard":
-                    res.ok("A2-TOTAL", "%s: %s" % (rn, norm(n)[:90]))
-            if isinstance(n, ast.Attribute) and isinstance(n.value, ast.Call) and norm(n.value.func).endswith("find_lanelet_by_id"):
-                res.bad("A2-TOTAL", "%s: %s" % (rn, norm(n)[:90]), Finding("A2-TOTAL", smod, n, "%s: %s" % (rn, norm(n)[:110]), "find_lanelet_by_id returns None for a lanelet that was removed meanwhile: the attribute access raises AttributeError and remove_obstacle fails", qualname="Scenario." + rn))
-            if isinstance(n, ast.Subscript) and isinstance(n.ctx, ast.Load) and isinstance(n.value, ast.Name):
-                # dict lookup by time step on a registry alias
-                rd = ReachingDefs(fr)
-                ds = [norm(d.node) for d in rd.defs(n.value.id, n) if d.node is not None]
-                if any("dynamic_obstacles_on_lanelet" in d for d in ds):
-                    g = dominating_guards(smod, n, stop=fr)
-                    ok = any(pol and norm(t) in ("%s in %s" % (norm(n.slice), n.value.id),) for t, pol in g)
-                    res.check("A2-TOTAL", "%s: %s guarded" % (rn, norm(n)), ok, smod, n, "%s: %s" % (rn, norm(n)), "the per-time-step registry may have no entry for this time step (obstacle added while the network was empty): KeyError, remove_obstacle fails", qualname="Scenario." + rn)
-        # find_lanelet_by_id results bound to a local must be None-checked
-        for n in walk_no_nested(fr):
-            if isinstance(n, ast.Assign) and isinstance(n.value, ast.Call) and norm(n.value.func).endswith("find_lanelet_by_id") and isinstance(n.targets[0], ast.Name):
-                v = n.targets[0].id
-                uses = [u for u in walk_no_nested(fr) if isinstance(u, ast.Attribute) and isinstance(u.value, ast.Name) and u.value.id == v]
-                ok = all(guard_says_not_none(dominating_guards(smod, u, stop=fr), v) for u in uses)
-                res.check("A2-TOTAL", "%s: %s None-checked before use" % (rn, v), ok, smod, n, "%s: %s = find_lanelet_by_id(..) used unguarded" % (rn, v), "find_lanelet_by_id may return None", qualname="Scenario." + rn)
+    c07ev.assign_rule(repo, res)
+    c07ev.add_remove_rules(repo, res)
     return {"assignment_sites": [q for _m, q, _f in sites]}
